@@ -435,6 +435,12 @@ def _add(module: Module, val: ModuleAttr) -> ModuleAttr:
         if getattr(prior, "_parent_module", None) is module:
             prior._parent_module = None
 
+    if prior is val:
+        # Added again, under its own name. If it changed kinds since (a Signal made a port, or back) it changes containers.
+        for ctr in (module.ports, module.signals):
+            if ctr is not type_ctr and ctr.get(val.name, None) is val:
+                ctr.pop(val.name)
+
     # Add it to the module namespace, and the type-specific container
     type_ctr[val.name] = val
     module.namespace[val.name] = val
